@@ -247,7 +247,7 @@ fn run_texts(texts: &[String], replies: &[String]) -> Option<(Vec<String>, Strin
     let mut term = Term::new();
     let mut o = Opts::default();
     o.replies = replies.iter().cloned().collect();
-    o.max_calls = 40_000;
+    o.max_calls = 5000;
     for l in texts {
         term.enter_raw(l);
         term.run(&mut o);
@@ -260,7 +260,7 @@ fn run_texts(texts: &[String], replies: &[String]) -> Option<(Vec<String>, Strin
     let end = term.line("RUN", &mut o);
     let mut s = format!("{}{}", flat(&pre), flat(&term.take()));
     if end != End::Stopped {
-        s.push_str("«not stopped»");
+        return Some((listing, "«not stopped»".to_string()));
     }
     term.line("PRINT A;B;C;A%;B%;A#;X;Y%;A$;B$;S$;I;J%;K", &mut o);
     s.push_str(&flat(&term.take()));
@@ -279,6 +279,9 @@ fn check_spellings(t: &mut Tape, ctx: &Ctx) -> Outcome {
         Some(x) => x,
         None => return Outcome::fail("panic", "canonical program panicked".into(), case0),
     };
+    if base.1 == "«not stopped»" {
+        return Outcome::discard("program does not finish within the budget");
+    }
     if base.0 != canon {
         return Outcome::fail("canonical-text-not-listed-verbatim", format!("{:?}", base.0), case0);
     }
